@@ -359,6 +359,7 @@ class Normaliser:
                     if r is None or r.node is not m or _uses_super(m):
                         continue
                     cp = clone(m, k.module.name)
+                    self._propagate_class_constants(cp, c)
                     cls_nodes[c.qual].body.append(cp)
                     self.contexts[id(cp)] = c
                     self.log.append(f'{k.name}.{m.name} copied into {c.name}')
@@ -377,6 +378,34 @@ class Normaliser:
                     continue  # still reached through super()
                 body = cls_nodes[kq].body
                 body[:] = [x for x in body if not (isinstance(x, ast.FunctionDef) and x.name == name)] or [ast.Pass(lineno=k.node.lineno, col_offset=0)]
+
+    def _propagate_class_constants(self, fn: ast.FunctionDef, c: ClassInfo) -> None:
+        """In a method copied down from a generic base class, `self.<attr>` naming a class-level constant of the receiving
+        class that is bound to a module-level name (`_var = _config_var`) is replaced by that name."""
+        if not fn.args.args:
+            return
+        me = fn.args.args[0].arg
+        for parent in ast.walk(fn):
+            for f, v in ast.iter_fields(parent):
+                items = v if isinstance(v, list) else [v]
+                for idx, x in enumerate(items):
+                    if not (isinstance(x, ast.Attribute) and isinstance(x.ctx, ast.Load) and isinstance(x.value, ast.Name) and x.value.id == me):
+                        continue
+                    r = self.table.resolve(c, x.attr)
+                    if r is None or not isinstance(r.node, (ast.Assign, ast.AnnAssign)) or r.owner is None:
+                        continue
+                    val = r.node.value
+                    if not isinstance(val, ast.Name) or x.attr in self.known_method_names:
+                        continue
+                    mod = r.owner.module
+                    if val.id not in mod.defs and val.id not in mod.imports:
+                        continue
+                    new = clone(val, mod.name)
+                    new.lineno, new.col_offset = getattr(x, 'lineno', 1), getattr(x, 'col_offset', 0)
+                    if isinstance(v, list):
+                        v[idx] = new
+                    else:
+                        setattr(parent, f, new)
 
     # -------------------------------------------------------------- 2. template methods with unknown hooks
     def _hook_names(self, b: ClassInfo, m: ast.FunctionDef) -> set[str]:
